@@ -436,7 +436,7 @@ func vBindOther(c *Context, typ Type) {
 // ---------------------------------------------------------------------------
 
 // verif:desc C05-O4 type values never change: after typ := c.LookupByValue(tv) succeeded, the caller overwrites its buffer tv with arbitrary bytes (what a recycled frame buffer does); c.LookupTypeValue(typ) must still return the bytes it returned before, must still equal the canonical encoding of typ, and looking the original bytes up again must return typ.
-// verif:bounds tv: every accepted byte string of length 1..4 over the type-value alphabet of C11-O3a minus name codes restricted as there; every cell of tv overwritten with an arbitrary byte
+// verif:bounds tv: every byte string of length 0..3 over the 20-letter type-value alphabet of C11-O3a (vTVBytes) that LookupByValue accepts in a fresh context; afterwards every cell of tv is overwritten with an arbitrary byte.  Assertion id type-value-is-canonical-encoding/non-canonical-input is the region where tv is not the canonical encoding of the decoded type (trailing bytes, padded uvarints)
 // verif:outside concurrent use
 // verif:unwind 48
 func VerifH_C05_O4_typevalue_stable() {
@@ -469,7 +469,7 @@ func VerifH_C05_O4_typevalue_stable() {
 }
 
 // verif:desc C05-O4b the type value of a type already known to the context does not change when somebody later looks the type up by a different (non-canonical but accepted) spelling: LookupTypeValue(typ) before and after LookupByValue(other spelling) are equal.
-// verif:bounds typ: (int64,string), enum(x), {a:int64}; other spelling: union members in the opposite order, a two-byte (padded) uvarint count, or one trailing byte
+// verif:bounds typ: (int64,string), enum(x), {a:int64}, [int64]; other spelling: union members in the opposite order, a two-byte (padded) uvarint count, or one trailing byte
 // verif:outside concurrent use
 // verif:unwind 24
 func VerifH_C05_O4_typevalue_respelled() {
